@@ -959,7 +959,10 @@ fn generate_right_ctx_state_char_arms(
 
     if !accept_ranges.is_empty() {
         let guard = if accept_ranges.len() > MAX_GUARD_SIZE {
-            let binary_search_table_id = ctx.add_search_table(accept_ranges.into_iter().collect());
+            // The ranges are collected in a set. Binary search needs them sorted.
+            let mut accept_ranges: Vec<(char, char)> = accept_ranges.into_iter().collect();
+            accept_ranges.sort();
+            let binary_search_table_id = ctx.add_search_table(accept_ranges);
             let binary_search_fn_ident = ctx.binary_search_fn_ident();
 
             quote!(#binary_search_fn_ident(x, &#binary_search_table_id))
